@@ -509,3 +509,58 @@ PROPS["C08"] = dict(
         H("c08_witness_must_fail", kind="witness", tier="thorough", timeout=900, **c08(2, 2, 1, 0, 0)),
     ],
 )
+
+U16 = {r"spec_find2|spec_spaces|spec_newline|spec_block_end|spec_anchor|c16_": 74,
+       r"find_quote_or_escape|find_single_quote|count_leading_spaces|find_newline|find_block_scalar_end|parse_anchor_name": 74}
+
+PROPS["C16"] = dict(
+    module="c16",
+    bounds=("kernel half only: every public yaml::simd kernel (find_quote_or_escape, find_single_quote, count_leading_spaces, find_newline, find_block_scalar_end, "
+            "parse_anchor_name, classify_yaml_chars<HAS_CR>) on every buffer of 12..=70 bytes at the listed concrete start offsets, end / min_indent symbolic; AVX2 path, SSE2 "
+            "path (avx2_enabled stubbed) and the scalar kernels (`scalar-yaml` build of the harness crate), all against one byte-at-a-time definition"),
+    outside=("the whole-index half of the property (every table of the loaded YamlIndex and the JSON/YAML output identical across dispatch levels) needs the 7,000-line YAML "
+             "parser and is NOT decided; start offsets not listed; buffers longer than 70 bytes"),
+    assumptions=["yaml::simd::x86::avx2_enabled (OnceLock + env clamp) replaced by a fixed or solver-chosen boolean"],
+    harnesses=[
+        H("c16_quote_n40_s0_avx2", timeout=1800, unwindset=U16, tier="thorough", bounds="all buffers of that length at that start; other arguments symbolic"),
+        H("c16_quote_n40_s3_avx2", timeout=1800, unwindset=U16, tier="quick", bounds="all buffers of that length at that start; other arguments symbolic"),
+        H("c16_quote_n40_s9_avx2", timeout=1800, unwindset=U16, tier="thorough", bounds="all buffers of that length at that start; other arguments symbolic"),
+        H("c16_quote_n40_s25_avx2", timeout=1800, unwindset=U16, tier="thorough", bounds="all buffers of that length at that start; other arguments symbolic"),
+        H("c16_quote_n70_s1_avx2", timeout=1800, unwindset=U16, tier="thorough", bounds="all buffers of that length at that start; other arguments symbolic"),
+        H("c16_quote_n40_s0_sse2", timeout=1800, unwindset=U16, tier="thorough", bounds="all buffers of that length at that start; other arguments symbolic"),
+        H("c16_quote_n40_s7_sse2", timeout=1800, unwindset=U16, tier="quick", bounds="all buffers of that length at that start; other arguments symbolic"),
+        H("c16_quote_n40_s25_sse2", timeout=1800, unwindset=U16, tier="thorough", bounds="all buffers of that length at that start; other arguments symbolic"),
+        H("c16_quote_n17_s1_any", timeout=1800, unwindset=U16, tier="thorough", bounds="all buffers of that length at that start; other arguments symbolic", replay="trace"),
+        H("c16_quote_n15_s0_any", timeout=1800, unwindset=U16, tier="quick", bounds="all buffers of that length at that start; other arguments symbolic", replay="trace"),
+        H("c16_spaces_n40_s0_avx2", timeout=1800, unwindset=U16, tier="thorough", bounds="all buffers of that length at that start; other arguments symbolic"),
+        H("c16_spaces_n40_s5_avx2", timeout=1800, unwindset=U16, tier="quick", bounds="all buffers of that length at that start; other arguments symbolic"),
+        H("c16_spaces_n40_s24_avx2", timeout=1800, unwindset=U16, tier="thorough", bounds="all buffers of that length at that start; other arguments symbolic"),
+        H("c16_spaces_n70_s2_avx2", timeout=1800, unwindset=U16, tier="thorough", bounds="all buffers of that length at that start; other arguments symbolic"),
+        H("c16_spaces_n40_s0_sse2", timeout=1800, unwindset=U16, tier="thorough", bounds="all buffers of that length at that start; other arguments symbolic"),
+        H("c16_spaces_n40_s9_sse2", timeout=1800, unwindset=U16, tier="quick", bounds="all buffers of that length at that start; other arguments symbolic"),
+        H("c16_spaces_n33_s1_any", timeout=1800, unwindset=U16, tier="thorough", bounds="all buffers of that length at that start; other arguments symbolic", replay="trace"),
+        H("c16_spaces_n15_s0_any", timeout=1800, unwindset=U16, tier="thorough", bounds="all buffers of that length at that start; other arguments symbolic", replay="trace"),
+        H("c16_spaces_n16_s16_any", timeout=1800, unwindset=U16, tier="quick", bounds="all buffers of that length at that start; other arguments symbolic", replay="trace"),
+        H("c16_block_end_n40_s0_avx2", timeout=1800, unwindset=U16, tier="thorough", bounds="all buffers of that length at that start; other arguments symbolic"),
+        H("c16_block_end_n40_s3_avx2", timeout=1800, unwindset=U16, tier="quick", bounds="all buffers of that length at that start; other arguments symbolic"),
+        H("c16_block_end_n66_s1_avx2", timeout=1800, unwindset=U16, tier="thorough", bounds="all buffers of that length at that start; other arguments symbolic"),
+        H("c16_block_end_n40_s0_sse2", timeout=1800, unwindset=U16, tier="thorough", bounds="all buffers of that length at that start; other arguments symbolic"),
+        H("c16_block_end_n34_s2_sse2", timeout=1800, unwindset=U16, tier="quick", bounds="all buffers of that length at that start; other arguments symbolic"),
+        H("c16_block_end_n20_s0_any", timeout=1800, unwindset=U16, tier="thorough", bounds="all buffers of that length at that start; other arguments symbolic", replay="trace"),
+        H("c16_block_end_n12_s12_any", timeout=1800, unwindset=U16, tier="quick", bounds="all buffers of that length at that start; other arguments symbolic", replay="trace"),
+        H("c16_anchor_n40_s0_avx2", timeout=1800, unwindset=U16, tier="thorough", bounds="all buffers of that length at that start; other arguments symbolic"),
+        H("c16_anchor_n40_s1_avx2", timeout=1800, unwindset=U16, tier="quick", bounds="all buffers of that length at that start; other arguments symbolic"),
+        H("c16_anchor_n70_s2_avx2", timeout=1800, unwindset=U16, tier="thorough", bounds="all buffers of that length at that start; other arguments symbolic"),
+        H("c16_anchor_n40_s0_sse2", timeout=1800, unwindset=U16, tier="quick", bounds="all buffers of that length at that start; other arguments symbolic"),
+        H("c16_anchor_n20_s3_any", timeout=1800, unwindset=U16, tier="thorough", bounds="all buffers of that length at that start; other arguments symbolic", replay="trace"),
+        H("c16_classify_n40_o0_cr_any", timeout=1800, unwindset=U16, tier="thorough", bounds="all buffers of that length at that start; other arguments symbolic", replay="trace"),
+        H("c16_classify_n40_o8_nocr_any", timeout=1800, unwindset=U16, tier="thorough", bounds="all buffers of that length at that start; other arguments symbolic", replay="trace"),
+        H("c16_classify_n40_o9_cr_any", timeout=1800, unwindset=U16, tier="quick", bounds="all buffers of that length at that start; other arguments symbolic", replay="trace"),
+        H("c16_classify_n40_o25_cr_any", timeout=1800, unwindset=U16, tier="quick", bounds="all buffers of that length at that start; other arguments symbolic", replay="trace"),
+        H("c16_quote_n40_s3_avx2", fs="scalar-yaml", timeout=1800, unwindset=U16, tier="quick", bounds="scalar-yaml build: pure scalar kernel, same harness"),
+        H("c16_spaces_n40_s5_avx2", fs="scalar-yaml", timeout=1800, unwindset=U16, tier="quick", bounds="scalar-yaml build: pure scalar kernel, same harness"),
+        H("c16_block_end_n40_s3_avx2", fs="scalar-yaml", timeout=1800, unwindset=U16, tier="quick", bounds="scalar-yaml build: pure scalar kernel, same harness"),
+        H("c16_anchor_n40_s1_avx2", fs="scalar-yaml", timeout=1800, unwindset=U16, tier="quick", bounds="scalar-yaml build: pure scalar kernel, same harness"),
+        H("c16_witness_must_fail", kind="witness", tier="thorough", timeout=900, unwindset=U16),
+    ],
+)
